@@ -5,7 +5,7 @@ REPO='/repo'
 def mk(prop, name, file, old, new, count=1):
     p=os.path.join(REPO,file)
     s=open(p,'rb').read().decode()
-    if '\r\n' in s and '\r\n' not in old:
+    if s.count(old)==0 and '\r\n' in s and '\r\n' not in old:
         old=old.replace('\n','\r\n'); new=new.replace('\n','\r\n')
     assert s.count(old)>=1,(name,'no match')
     s2=s.replace(old,new,count)
